@@ -45,6 +45,23 @@ pub fn def_by_symbol(sym: &str) -> Option<Def> {
     }
 }
 
+/// What everyday spellings of units mean, by canonical symbol (general knowledge, not read from the units file): a
+/// spelling the converter knows must resolve to a unit with this definition.
+pub const SPELLINGS: &[(&str, &str)] = &[
+    ("℃", "°C"), ("°C", "°C"), ("ºC", "°C"), ("C", "°C"), ("celsius", "°C"), ("℉", "°F"), ("°F", "°F"), ("ºF", "°F"), ("F", "°F"), ("fahrenheit", "°F"),
+    ("kelvin", "K"), ("teaspoon", "tsp"), ("teaspoons", "tsp"), ("tsp.", "tsp"), ("tablespoon", "tbsp"), ("tablespoons", "tbsp"), ("tbsp.", "tbsp"),
+    ("tbs", "tbsp"), ("tbs.", "tbsp"), ("fluid ounce", "fl oz"), ("fluid ounces", "fl oz"), ("fl. oz.", "fl oz"), ("fl. oz", "fl oz"), ("fl oz.", "fl oz"),
+    ("cup", "c"), ("cups", "c"), ("pint", "pt"), ("pints", "pt"), ("quart", "qt"), ("quarts", "qt"), ("gallon", "gal"), ("gallons", "gal"),
+    ("liter", "l"), ("liters", "l"), ("litre", "l"), ("litres", "l"), ("L", "l"), ("milliliter", "ml"), ("millilitres", "ml"), ("mL", "ml"), ("deciliter", "dl"),
+    ("centilitre", "cl"), ("dL", "dl"), ("cL", "cl"), ("kiloliter", "kl"), ("hectolitre", "hl"), ("decaliter", "dal"),
+    ("meter", "m"), ("meters", "m"), ("metre", "m"), ("metres", "m"), ("centimeter", "cm"), ("centimetres", "cm"), ("millimeter", "mm"), ("kilometre", "km"),
+    ("decimeter", "dm"), ("foot", "ft"), ("feet", "ft"), ("'", "ft"), ("inch", "in"), ("inches", "in"), ("\"", "in"),
+    ("gram", "g"), ("grams", "g"), ("kilogram", "kg"), ("kilograms", "kg"), ("milligram", "mg"), ("milligrams", "mg"), ("hectogram", "hg"), ("decagram", "dag"),
+    ("decigram", "dg"), ("centigram", "cg"), ("ounce", "oz"), ("ounces", "oz"), ("oz.", "oz"), ("pound", "lb"), ("pounds", "lb"), ("lb.", "lb"),
+    ("second", "s"), ("seconds", "s"), ("sec", "s"), ("secs", "s"), ("minute", "min"), ("minutes", "min"), ("mins", "min"), ("hour", "h"), ("hours", "h"),
+    ("day", "d"), ("days", "d"),
+];
+
 impl Def {
     pub fn to_base(&self, v: f64) -> f64 {
         (v + self.offset) * self.factor
